@@ -12,7 +12,8 @@ Modelled branch by branch, in the order of the code:
   * declared headers except the one named exactly "Content-Type", in sorted name order, first error returned
     (also under MultiError: the option only reaches the schema visitor and never changes the verdict):
       - header described by `content` (no schema): only presence is checked (finding #22, fixed);
-      - decode error → error; found → Schema.VisitJSON(decoded value) WITHOUT VisitAsResponse, where a present header
+      - decode error → error; found → Schema.VisitJSON(decoded value, VisitAsResponse [, DisableWriteOnlyValidation])
+        (headers are response data since the fix of finding F-C08-2, commit 35101a0), where a present header
         whose decoding yields no value (no `type` in the schema, or an empty string) is visited as `null`;
       - not found and required → error;
   * ExcludeResponseBody → nil; empty content map → nil; Content.Get(Content-Type) = nil → error;
@@ -237,7 +238,7 @@ structure Out where
 def present (canon : String → String) (hdrs : List (String × String)) (h : Hdr) : Bool :=
   (lookup (canon h.name) hdrs).isSome
 
-/-- validateResponseHeader -/
+/-- validateResponseHeader (called with `append(opts, VisitAsResponse())` since commit 35101a0) -/
 def checkHeader (canon : String → String) (woOff : Bool) (hdrs : List (String × String)) (h : Hdr) : Option Err :=
   match h.schema with
   | none => if !present canon hdrs h && h.required then some (.hdrMissing h.name) else none
@@ -245,8 +246,8 @@ def checkHeader (canon : String → String) (woOff : Bool) (hdrs : List (String 
     if present canon hdrs h then
       match h.dec with
       | .err => some (.hdrDecode h.name)
-      | .nil => if visit ⟨false, woOff⟩ .null s then none else some (.hdrSchema h.name)
-      | .val v => if visit ⟨false, woOff⟩ v s then none else some (.hdrSchema h.name)
+      | .nil => if visit ⟨true, woOff⟩ .null s then none else some (.hdrSchema h.name)
+      | .val v => if visit ⟨true, woOff⟩ v s then none else some (.hdrSchema h.name)
     else if h.required then some (.hdrMissing h.name) else none
 
 def insertHdr (h : Hdr) : List Hdr → List Hdr
@@ -429,7 +430,7 @@ def acceptB (canon : String → String) (o : Opts) (i : Input) : Bool :=
     (r.headers.all (fun h => h.name = "Content-Type" || headerOKB canon o.woOff i.hdrs h)) &&
     (o.excludeBody || bodyOKB o i r)
 
-/-! ### Exclusion predicates (classes in which the code deviates from the property) -/
+/-! ### Where VisitAsResponse matters (helper of `visit_plain_eq_asrep_untouched`; no exclusion class) -/
 
 def declaresWO : Props → Bool
   | .nil => false
@@ -453,14 +454,11 @@ def woTouchedKVs : KVs → Sch → Bool
     || woTouchedKVs r s
 end
 
+/-! ### Exclusion predicates (classes in which the code deviates from the property) -/
+
 /-- F-C08-1: a present header with a schema whose decoding gives no value is visited as `null` -/
 def hdrDecodedNil (canon : String → String) (hdrs : List (String × String)) (h : Hdr) : Bool :=
   present canon hdrs h && h.schema.isSome && (match h.dec with | .nil => true | _ => false)
-
-/-- F-C08-2: a present header's value reaches a write-only declaration (headers are visited without VisitAsResponse) -/
-def hdrWriteOnly (canon : String → String) (hdrs : List (String × String)) (h : Hdr) : Bool :=
-  present canon hdrs h &&
-  (match h.schema, h.dec with | some s, .val v => woTouched v s | _, _ => false)
 
 def anyHdr (i : Input) (f : Hdr → Bool) : Bool :=
   match selected i.responses i.status with
@@ -468,12 +466,11 @@ def anyHdr (i : Input) (f : Hdr → Bool) : Bool :=
   | some r => r.headers.any (fun h => h.name ≠ "Content-Type" && f h)
 
 def HdrDecodedNil (canon : String → String) (i : Input) : Bool := anyHdr i (hdrDecodedNil canon i.hdrs)
-def HdrNotAsResponse (canon : String → String) (i : Input) : Bool := anyHdr i (hdrWriteOnly canon i.hdrs)
 
 /-- F-C08-3: empty responses map under IncludeResponseStatus -/
 def EmptyMapStrict (o : Opts) (i : Input) : Bool := i.responses.isEmpty && o.strict
 
 def Excluded (canon : String → String) (o : Opts) (i : Input) : Bool :=
-  HdrDecodedNil canon i || HdrNotAsResponse canon i || EmptyMapStrict o i
+  HdrDecodedNil canon i || EmptyMapStrict o i
 
 end KinModel.Response
